@@ -424,6 +424,22 @@ def run(ses, rep):
         rep.add(oid, status, v)
 
 
+def fallback(rep):
+    """kernels undecided: the whole scenario battery is run; only reproduced violations are reported"""
+    binp = common.native_build("default")
+    for name, src, args, want in BATTERY:
+        rc, out, err = common.run_stylua(binp, src, args)
+        if rc != 0 or out != want:
+            v = f"scenario {name}: got {out!r}, expected {want!r}" + (f" (rc={rc}: {err[:100]})" if rc else "")
+            role = {"obligation": "battery-after-undecided-kernel", "scenario": name}
+            status = rep.violation(role, {"what": "kernel undecided; scenario battery", "observed": v, "kind": "battery", "scenario": name, "source": src, "args": args, "output": out})
+            rep.add(f"battery/{name}", status, v)
+    sc, v, rec = replay_trivia()
+    if v:
+        status = rep.violation({"obligation": "battery-after-undecided-kernel", "scenario": sc}, {"what": "kernel undecided; scenario battery", "observed": v, "kind": "trivia", "scenario": sc, **rec})
+        rep.add(f"battery/{sc}", status, v)
+
+
 def replay(path):
     d = json.load(open(path))
     r = d["replay"]
